@@ -191,7 +191,9 @@ BOUNDED_NOTE = ("NOT a proof: bound = G1 programs of nesting depth <= 2 plus the
 PROPS["C01"] = dict(
     level="exploration", contracts=["contracts.inspect311", "contracts.c01_lemmas", "contracts.lowlevel", "contracts.inspect310"],
     unit_filter=lambda u: not u.name.startswith("C20.") and u.name != "C02.inspect_frame_310.stack",
-    legs=[g1("suspended", PY312, "py312"), g1("suspended", PY311, "py311"), corpus("exits", PY312, "py312"),
+    legs=[dict(name="c01_cmanagers", cmd="PYTHONPATH={repo} " + PY312 + " legs/c01_cmanagers.py"),
+          dict(name="c01_cmanagers_py311", cmd="PYTHONPATH={repo} " + PY311 + " legs/c01_cmanagers.py")] + old_pythons("c01_cmanagers", "c01_cmanagers.py") + [
+          g1("suspended", PY312, "py312"), g1("suspended", PY311, "py311"), corpus("exits", PY312, "py312"),
           corpus("exits", PY311, "py311", True), g1("suspended", PY310, "py310", vendor=True),
           g1("suspended", PY39, "py39", thorough_only=True, vendor=True), g1("suspended", PY312, "py312", 3, True, stride=40)],
     technique=BOUNDED_TECH + "; sub-lemmas (varint / exception-table decoding, handler-chain walk, the join of block stack and "
@@ -203,8 +205,11 @@ PROPS["C01"] = dict(
           "not make this a proof.",
     note=BOUNDED_NOTE)
 PROPS["C02"] = dict(
-    level="exploration", contracts=["contracts.inspect311", "contracts.inspect310"],
-    unit_filter=lambda u: u.name != "C01.inspect_frame_310.blocks", legs=[g1("running", PY312, "py312"), g1("running", PY311, "py311"),
+    level="exploration", contracts=["contracts.inspect311", "contracts.inspect310", "contracts.c13"],
+    unit_filter=lambda u: u.name in ("C07.inspect_frame_311", "C02.inspect_frame_310.stack", "C13.push"),
+    legs=[dict(name="c02_exit_names", cmd="PYTHONPATH={repo} " + PY312 + " legs/c02_exit_names.py"),
+          dict(name="c02_exit_names_py311", cmd="PYTHONPATH={repo} " + PY311 + " legs/c02_exit_names.py")] + old_pythons("c02_exit_names", "c02_exit_names.py") + [
+          dict(name="c13_options", cmd="PYTHONPATH={repo} " + PY312 + " legs/c13_options.py"), g1("running", PY312, "py312"), g1("running", PY311, "py311"),
                                              g1("running", PY310, "py310", vendor=True),
                                              g1("running", PY39, "py39", thorough_only=True, vendor=True),
                                              g1("running", PY312, "py312", 3, True, stride=40)],
@@ -232,6 +237,8 @@ PROPS["C08"] = dict(
 PROPS["C20"] = dict(
     level="exploration", contracts=["contracts.lowlevel"], unit_filter=lambda u: u.name.startswith("C20."),
     legs=[dict(name="c20_mode", cmd="PYTHONPATH={repo} " + PY312 + " legs/c20_mode.py"),
+          dict(name="c01_cmanagers", cmd="PYTHONPATH={repo} " + PY312 + " legs/c01_cmanagers.py"),
+          dict(name="c01_cmanagers_py311", cmd="PYTHONPATH={repo} " + PY311 + " legs/c01_cmanagers.py"),
           dict(name="c20_faults", cmd="PYTHONPATH={repo} " + PY312 + " legs/c20_faults.py"),
           dict(name="c20_faults_py311", cmd="PYTHONPATH={repo} " + PY311 + " legs/c20_faults.py")] + old_pythons("c20_faults", "c20_faults.py") + [
           g1("referents", PY312, "py312"), g1("referents", PY311, "py311"), g1("referents", PY310, "py310", vendor=True),
@@ -245,9 +252,10 @@ PROPS["C20"] = dict(
           "before: warning + sound fallback, and the next fault-free inspection (same frame, fresh frame of the same function) is exact again.",
     note=BOUNDED_NOTE + "; what gc.get_referents reports is interpreter behaviour")
 PROPS["C06"] = dict(
-    level="exploration", contracts=["contracts.inspect311", "contracts.lowlevel", "contracts.inspect310"], static=["contracts.c06_effects"],
-    unit_filter=lambda u: u.name in ("C07.inspect_frame_311", "C01.analyze_with_blocks", "C01.inspect_frame_310.blocks", "C02.inspect_frame_310.stack"),
-    legs=[g1("twin", PY312, "py312"), g1("twin", PY311, "py311", thorough_only=True),
+    level="exploration", contracts=["contracts.inspect311", "contracts.lowlevel", "contracts.inspect310", "contracts.c13"], static=["contracts.c06_effects"],
+    unit_filter=lambda u: u.name in ("C07.inspect_frame_311", "C01.analyze_with_blocks", "C01.inspect_frame_310.blocks", "C02.inspect_frame_310.stack",
+                                     "C20.contexts_active_by_referents", "C13.push"),
+    legs=[dict(name="c13_options", cmd="PYTHONPATH={repo} " + PY312 + " legs/c13_options.py"), g1("twin", PY312, "py312"), g1("twin", PY311, "py311", thorough_only=True),
           dict(name="c07_preempt", cmd="PYTHONPATH={repo} " + PY312 + " legs/c07_preempt.py")],
     technique=BOUNDED_TECH + " (twin runs)",
     explanation='Deductive / syntactic part: five effect and retention obligations over the package ASTs (no resuming call on a target, no memoising decorator, no clock / RNG, module-level mutable state only in the listed places, ...); inspect_frame reads only value-stack slots below the validated depth and brackets every slot read by an f_lasti check; analyze_with_blocks hands out a fresh table of fresh templates (nothing shared between calls, so filling in obj cannot leak a manager into module state). Reference counts of the ctypes reads and crash-freedom are assumptions.',
@@ -295,9 +303,9 @@ PROPS["C19"] = dict(
     note="traceback.FrameSummary / StackSummary behaviour assumed; callee sequences are abstract (modular: each generator is proved "
          "against the others' contracts)")
 PROPS["C09"] = dict(
-    level="other", contracts=["contracts.glue_small", "contracts.c11"],
-    unit_filter=lambda u: u.name.startswith("C09.") or u.name.startswith("C11.fill_context"),
-    legs=[dict(name="c09_trees", cmd="PYTHONPATH={repo} " + PY312 + " legs/c09_trees.py")] + old_pythons("c09_trees", "c09_trees.py"), technique=TECH + "; bounded registration-sequence leg",
+    level="other", contracts=["contracts.glue_small", "contracts.c11", "contracts.c13"],
+    unit_filter=lambda u: u.name.startswith("C09.") or u.name.startswith("C11.fill_context") or u.name == "C13.push",
+    legs=[dict(name="c09_trees", cmd="PYTHONPATH={repo} " + PY312 + " legs/c09_trees.py"), dict(name="c13_options", cmd="PYTHONPATH={repo} " + PY312 + " legs/c13_options.py")] + old_pythons("c09_trees", "c09_trees.py"), technique=TECH + "; bounded registration-sequence leg",
     explanation="Deductive part (all inputs): elaborate_generatorbased_contextmanager sets inner_stack = extract_child(mgr.gen, for_task=False) "
                 "iff the context is not exiting and always a description, touching nothing else; elaborate_exit_stack's loop is cut by an "
                 "invariant (children attached up front, one child appended per callback at position idx = registration order, fill_context run "
